@@ -297,7 +297,8 @@ def run_case(spec):
         ended = "failure_limit"
     else:
         ended = "raised"
-        o.violate("run_returns", f"tuner_run_raised:{type(exc).__name__}", {"error": repr(exc)[:300], "kind": kind, "ending": ending})
+        tag = f":resume_of_failed_trial:{kind}" if "Cannot resume trial_id" in repr(exc) else ""
+        o.violate("run_returns", f"tuner_run_raised:{type(exc).__name__}{tag}", {"error": repr(exc)[:300], "kind": kind, "ending": ending})
 
     # ---- walk the log
     started = 0
